@@ -314,3 +314,28 @@ def variant_edges(body, bb, value, all_values=(0, 1)):
     if all(v in listed for v in all_values if v != value):
         return {(bb, t["otherwise"])}
     return set()
+
+
+def returned_comparisons(body, ch, pred):
+    """blocks in which the return place `_0` is assigned the value of an ordering comparison whose operands satisfy
+    pred(a, b) (either order; op is given for the orientation in which pred(a, b) holds): [(bb, op)]"""
+    out = []
+    flip = {"Lt": "Gt", "Le": "Ge", "Gt": "Lt", "Ge": "Le"}
+    for bb, blk in enumerate(body.blocks):
+        for st in blk["s"]:
+            if st[0] != "=" or st[1] != [0, []]:
+                continue
+            e, neg = unwrap_not(ch.rvalue(st[2], 0))
+            if e[0] != "bin" or e[1] not in flip:
+                continue
+            op, a, b = e[1], e[2], e[3]
+            if pred(a, b):
+                pass
+            elif pred(b, a):
+                op = flip[op]
+            else:
+                continue
+            if neg:
+                op = {"Lt": "Ge", "Le": "Gt", "Gt": "Le", "Ge": "Lt"}[op]
+            out.append((bb, op))
+    return out
